@@ -178,6 +178,26 @@ def run(facts, R):
         R.check(want, "padding-base", ab.path, "base = 48 + len(self.query)", "aligned padding is computed for body offset %s, the frame puts the body at 48 + len(query)" % b1, ab.span, str(b1))
         _format_is_beve(facts, R, ab, s, beve_code, "message::MessageBuilder", "body_format")
 
+    # every other place that computes aligned padding (a streaming sibling of the aligned builder): the base offset handed to
+    # write_aligned_typed_slice_at / aligned_typed_slice_size is 48 + the length of a query *slice or vector* - the bytes that will
+    # precede the body - never a header length field, which the frame writers only fill in afterwards
+    n_al = 0
+    for b_ in facts.bodies.values():
+        if b_.path == ab.path or "::tests::" in b_.path:
+            continue
+        aff_ = None
+        for i_, t_ in b_.calls():
+            if not callee_matches(t_["callee"], "beve::write_aligned_typed_slice_at", "beve::aligned_typed_slice_size"):
+                continue
+            aff_ = aff_ or Affine(b_, facts)
+            n_al += 1
+            base_op = t_["args"][2] if t_["callee"]["name"] == "write_aligned_typed_slice_at" else t_["args"][1]
+            bf = aff_.op_form(aff_.state_at(term_pt(b_, i_)), base_op)
+            okb = bf is not None and bf.c == 48 and len(bf.t) == 1 and list(bf.t.values()) == [1] and list(bf.t)[0][0] == "len" and "query" in str(list(bf.t)[0])
+            R.check(okb, "padding-base", b_.path, "base = 48 + len(query)",
+                    "aligned padding is computed for body offset %s: not 48 + the length of the query bytes that precede the body (a header's query_length is only "
+                    "stamped by the frame writer afterwards), so the streamed frame pads differently from the buffered builder's" % bf, t_.get("span"), str(bf))
+
     # ---------------- borrow-then-own -----------------------------------------------------------------------
     rb = facts.body("server::decode_typed_slice_ref_body")
     rs = Sym(rb)
